@@ -2,7 +2,7 @@ import Aiortc.Lemmas.NegotiateCodecs
 import Aiortc.Lemmas.NegotiatePc
 import Aiortc.Lemmas.NegotiateExchange
 import Aiortc.Lemmas.NegotiateFresh
-import Aiortc.Lemmas.C03.Compat
+import Aiortc.Lemmas.C03.CompatCommon
 /-!
 # C03 — offer/answer yields a consistent, connectable session for every configuration
 
@@ -384,6 +384,17 @@ theorem new_pair_ready (p1 p2 : Policy) :
 theorem compatible_of_family {P : Kind → List Cap → Prop} (hP : PrefsOk P) {o a : Pc}
     (ho : ∀ t ∈ o.transceivers, P t.kind t.preferred) (ha : ∀ t ∈ a.transceivers, P t.kind t.preferred) : Compatible o a :=
   compatible_of_prefsOk hP ho ha
+
+/-- **"At least one real codec in common per kind" ⇒ `Compatible`.**  Fix for each media kind a real (non-RTX) capability
+of aiortc's tables; if every transceiver of both connections has no preference or a preference list that contains the
+capability of its kind (anywhere, with anything else, with or without RTX), the connections are compatible: offer,
+answer and what the offerer keeps all contain that codec.  (`prefsOk_opus_vp8` is the instance Opus / VP8.) -/
+theorem compatible_of_common_codec (cap : Kind → Cap)
+    (hcap : ∀ k, k.isMedia = true → (cap k).isRtx = false ∧ ∃ c0 ∈ codecsOf k, c0.isRtx = false ∧
+      c0.mime.toLower = (cap k).mime.toLower ∧ c0.params = (cap k).params) {o a : Pc}
+    (ho : ∀ t ∈ o.transceivers, t.preferred = [] ∨ cap t.kind ∈ t.preferred)
+    (ha : ∀ t ∈ a.transceivers, t.preferred = [] ∨ cap t.kind ∈ t.preferred) : Compatible o a :=
+  compatible_of_prefsOk (prefsOk_common cap hcap) ho ha
 
 /-- The hypothesis "at least one REAL codec" cannot be dropped, and the weaker compatibility condition of round 1
 (only offerer-vs-existing-answerer lists) was not enough: an offerer whose only preference is the RTX capability offers
